@@ -33,7 +33,7 @@ RULE = (
 )
 TIMEOUT = 600
 REQUIRED_COUNTERS = ["builds", "rc_failed", "rc_pending", "rc_drained", "rc_zero", "summaries_checked",
-                     "invalid_target_builds", "rc_warning"]
+                     "invalid_target_builds", "rc_warning", "orphaned_failed_only"]
 ASSUMPTIONS = ["mode A; INTERNAL and INTERRUPTED are set by the terminal front end and are not "
                "part of serve()'s return code"]
 
@@ -81,9 +81,26 @@ def scenario_static_target():
     return spec, [{"spec": spec, "edits": []}], {"njob": 1, "targets": ["src/a.txt"]}
 
 
+def scenario_orphaned_failed_step():
+    """A plan declares a step that fails and then fails itself, so the failed step is orphaned; the
+    repaired plan does not declare it any more.  In the second build every attached step succeeds
+    while the orphan is still recorded as FAILED (it is only removed by the cleanup, which comes
+    after the status was decided): that build has to end with status 0."""
+    import copy
+    spec = _base()
+    bprog = [{"a": "signal", "key": "b_failing"}, {"a": "fail", "rc": 3}]
+    spec["plans"]["."] += [["raw", {"a": "step", "cmd": "do " + json.dumps(bprog)}],
+                           ["raw", {"a": "await", "key": "b_failing"}], ["raw", {"a": "sleep", "s": 0.05}],
+                           ["raw", {"a": "fail", "rc": 3}]]
+    spec2 = copy.deepcopy(_base())
+    return spec, [{"spec": spec2, "edits": [["repair_plan", "without the failing step"]]}], \
+        {"njob": 3, "keep_going": True, "no_drain": True}
+
+
 SCENARIOS = dict(c10.SCENARIOS)
 SCENARIOS.update({"glob_unjustified": scenario_glob_unjustified, "glob_on_built": scenario_glob_on_built,
-                  "missing_targets": scenario_missing_targets, "static_target": scenario_static_target})
+                  "missing_targets": scenario_missing_targets,
+                  "orphaned_failed_step": scenario_orphaned_failed_step, "static_target": scenario_static_target})
 
 
 def add_cycle(rng, spec):
@@ -265,6 +282,11 @@ def run_case(case):
         model, failed, required, pending_required, not_done, glob_errors, glob_warnings, missing = evaluate(
             end.snap, cfg.get("targets", ()), cfg.get("target_dirs", ()), end.exists)
         lab = lambda ids: [end.snap["node"][i][1][:70] for i in ids[:4]]  # noqa: E731
+        orphans_failed = [i for i, st in model.steps.items() if not model.attached(i) and st["state"] == I.F]
+        if orphans_failed:
+            counters["builds_with_orphaned_failed_step"] = counters.get("builds_with_orphaned_failed_step", 0) + 1
+            if not failed and not end.draining:
+                counters["orphaned_failed_only"] = counters.get("orphaned_failed_only", 0) + 1
         warnings = [str(m) for m in build.tagged("WARNING")]
         errors = [str(m) for m in build.tagged("ERROR")]
         for bit, name in ((FAILED, "rc_failed"), (PENDING, "rc_pending"), (DRAINED, "rc_drained")):
@@ -345,7 +367,7 @@ def run_case(case):
         if rc != 0 and not end.summaries:
             classes.add(repr((rc, bool(end.draining), bool(failed), bool(pending_required), None)))
 
-    nproj = 1 if "scenario" in case else 3
+    nproj = 4 if case.get("scenario") == "orphaned_failed_step" else 1 if "scenario" in case else 3
     for h in range(nproj):
         sub = f"p{h}"
         os.makedirs(sub)
@@ -382,7 +404,7 @@ def run_case(case):
                 end = EndMonitor()
                 mode = rng.choice(["free", "jitter", "serial"])
                 ctl = H.Controller(mode, rng.randrange(1 << 30))
-                if mode == "serial" and rng.random() < 0.3:
+                if mode == "serial" and rng.random() < 0.3 and not cfg.get("no_drain"):
                     # drain at a random gate
                     state = {"left": rng.randint(1, 6)}
 
